@@ -32,6 +32,42 @@ pub fn op_scan(d: &[u8]) -> String {
     }
 }
 
+/// `d` followed by zero bytes up to `total` bytes: a lazily zeroed allocation, of which only the frame's
+/// own pages are ever touched when the code under test behaves
+fn big_slice(total: usize, d: &[u8]) -> Option<Vec<u8>> {
+    if total < d.len() || total > (1usize << 34) {
+        return None;
+    }
+    let mut v = vec![0u8; total];
+    v[..d.len()].copy_from_slice(d);
+    Some(v)
+}
+
+pub fn op_big(scan: bool, oracle: bool, total: usize, d: &[u8]) -> String {
+    let v = match big_slice(total, d) {
+        Some(v) => v,
+        None => return "BAD-OP".into(),
+    };
+    match (scan, oracle) {
+        (false, false) => op_frame(&v),
+        (true, false) => op_scan(&v),
+        (false, true) => {
+            // C13 / C03: the answer is that of the frame's own bytes (suffix irrelevant)
+            let a = op_frame(&v);
+            let cap = d.len().max(1100).min(total);
+            let b = op_frame(&v[..cap]);
+            if a == b { "PASS".into() } else { format!("FAIL C03 slice of {} bytes answers {} but its first {} bytes answer {}", total, &a[..a.len().min(60)], cap, &b[..b.len().min(60)]) }
+        }
+        (true, true) => {
+            let a = op_scan(&v);
+            let cap = d.len().max(1100).min(total);
+            let b = op_scan(&v[..cap]);
+            let same = a == b || (a.ends_with("NONE") && b.ends_with("NONE") && !a.starts_with("0 ") && !b.starts_with("0 "));
+            if same { "PASS".into() } else { format!("FAIL C05 buffer of {} bytes answers {} but its first {} bytes answer {}", total, &a[..a.len().min(60)], cap, &b[..b.len().min(60)]) }
+        }
+    }
+}
+
 pub fn op_iter(d: &[u8]) -> String {
     let mut it = MsgFrameIter::new(d);
     let mut frames = Vec::new();
